@@ -39,6 +39,7 @@ type DeclCfg struct {
 	PHiddenGrp   int
 	PHiddenCmd   int
 	PBase        int
+	PInline      int // % of nested struct fields that carry no group tag (their options belong to the enclosing group)
 	PCmdTwin     int // a sibling command is named like the previous one up to case / one trailing character
 	PNamedRest   int // a []string rest positional is declared with the named type StrList
 	PPosLongTag  int // a positional field also carries a long: tag
@@ -306,6 +307,18 @@ func (n *namer) genGroupBody(g *Grp, c *Cmd, nest int) {
 		for i := r.Range(0, cfg.SubGroupsMax); i > 0; i-- {
 			id := d.NewID()
 			sg := &Grp{Cmd: c, Parent: g, Field: fmt.Sprintf("G%d", id), Desc: fmt.Sprintf("Grp %03d", id)}
+			if r.Chance(cfg.PInline, 100) {
+				// an untagged struct field: its options are part of the enclosing group
+				sg.Inline, sg.Desc = true, ""
+				sg.Ptr = r.Chance(cfg.PPtrGroup, 100)
+				d.Grps = append(d.Grps, sg)
+				g.Subs = append(g.Subs, sg)
+				n.genGroupBody(sg, c, nest+1)
+				if sg.Ptr && len(allOptsOf(sg)) == 0 {
+					sg.Ptr = false
+				}
+				continue
+			}
 			if r.Chance(cfg.PNamespace, 100) {
 				sg.Namespace = fmt.Sprintf("n%d", id) + r.Pick([]string{"", "s", "-t"})
 			}
@@ -331,20 +344,33 @@ func (n *namer) genOpt(g *Grp, c *Cmd) *Opt {
 	r, cfg, d := n.r, n.cfg, n.d
 	id := d.NewID()
 	o := &Opt{ID: id, Field: fmt.Sprintf("F%d", id), Grp: g, Cmd: c}
-	if g.Parent != nil && r.Chance(cfg.PDupField, 100) {
+	if g.Owner().Parent != nil && r.Chance(cfg.PDupField, 100) {
 		// same field name in an enclosing group's struct (legal Go; the INI key of both is that name)
 		var anc []*Opt
-		for pg := g.Parent; pg != nil; pg = pg.Parent {
-			anc = append(anc, pg.Opts...)
+		for pg := g.Owner().Parent; pg != nil; pg = pg.Parent {
+			// (not from the group that will hold this option itself: two options of one group with the same field
+			// name cannot be told apart in an INI section)
+			if pg.Owner() != g.Owner() {
+				anc = append(anc, pg.Opts...)
+			}
 		}
 		if len(anc) > 0 {
 			cand := anc[r.Intn(len(anc))].Field
 			free := true
-			for _, x := range g.Opts {
-				if x.Field == cand {
-					free = false
+			var own func(x *Grp)
+			own = func(x *Grp) {
+				for _, xo := range x.Opts {
+					if xo.Field == cand {
+						free = false
+					}
+				}
+				for _, sx := range x.Subs {
+					if sx.Inline {
+						own(sx)
+					}
 				}
 			}
+			own(g.Owner())
 			if free {
 				o.Field = cand
 			}
